@@ -324,12 +324,15 @@ pub const SIZES: [usize; 22] = [
 
 /// An even shard size; small index = simple.
 pub fn gen_bytes(ch: &mut Chooser, max: usize) -> usize {
-    let b = if ch.chance("bytes.random", 1, 4) {
+    let b = if max >= 322 && ch.chance("bytes.long", 1, 12) {
+        // many blocks (up to 24) with or without a partial last block
+        64 * (6 + ch.pick_usize("bytes.blocks", 19)) + [0usize, 2, 30, 34, 62][ch.pick_usize("bytes.tail", 5)]
+    } else if ch.chance("bytes.random", 1, 4) {
         2 * (1 + ch.pick_usize("bytes.half", 161))
     } else {
         SIZES[ch.pick_usize("bytes.idx", SIZES.len())]
     };
-    if b > max {
+    if b > max && !(max >= 322 && b > 322) {
         // keep parity and the partial-block class
         let b2 = b % 64;
         if b2 == 0 {
@@ -357,7 +360,8 @@ pub fn gen_counts(ch: &mut Chooser, fam: Family, scale: u8) -> (usize, usize) {
     let (max, max_log) = match scale {
         0 => (16usize, 4u32),
         1 => (96, 6),
-        _ => (3000, 11),
+        2 => (3000, 11),
+        _ => (24000, 14),
     };
     for _ in 0..8 {
         let mut one = |ch: &mut Chooser| {
@@ -377,7 +381,7 @@ pub fn gen_counts(ch: &mut Chooser, fam: Family, scale: u8) -> (usize, usize) {
 }
 
 pub fn gen_scale(ch: &mut Chooser) -> u8 {
-    ch.weighted("cfg.scale", &[70, 25, 5]) as u8
+    ch.weighted("cfg.scale", &[68, 24, 7, 1]) as u8
 }
 
 /// Cost-bounded valid configuration.
@@ -387,7 +391,8 @@ pub fn gen_config(ch: &mut Chooser, fam: Family) -> (usize, usize, usize) {
     let max_b = match scale {
         0 => 322,
         1 => 194,
-        _ => 66,
+        2 => 66,
+        _ => 2,
     };
     let b = gen_bytes(ch, max_b);
     (k, r, b)
